@@ -2082,9 +2082,140 @@ def k0_solve_shape(core, rep):
            f'Solver.solve() calls {unparse(other[0], 50) if other else "nothing"} inside the loop over the requested forms: lines are attempted (and questions asked) while the forms named '
            'later in the request are still unknown - a reference to such a form fails or resolves differently, so the result depends on the order in which the forms were requested',
            f'{f.rel}:{other[0].lineno}' if other else _w(f))
+    # every requested name reaches _add_form: the call sits in the loop body itself, handed the loop variable, and the only
+    # skip before it that is accepted is one that tests the WHOLE requested name (`if form_name in seen: continue`) - a skip
+    # keyed by part of the name drops the second copy of a form (w-2:0, w-2:1), a `break` drops the rest of the request
+    lv = loops[0].target.id if isinstance(loops[0].target, ast.Name) else None
+    adds = [(k, st) for k, st in enumerate(loops[0].body) if isinstance(st, ast.Expr) and isinstance(st.value, ast.Call) and call_name(st.value) == '_add_form'
+            and st.value.args and isinstance(st.value.args[0], ast.Name) and st.value.args[0].id == lv]
+    bad = None
+    if not adds:
+        inner = [c for c in calls if call_name(c) == '_add_form']
+        bad = inner[0] if inner else loops[0]
+        why = 'the call of _add_form is conditional (or is not handed the requested name itself)'
+    else:
+        for st in loops[0].body[:adds[0][0]]:
+            for x in ast.walk(st):
+                if isinstance(x, ast.Break):
+                    bad, why = x, 'a `break` ends the loop before the rest of the request is added'
+                elif isinstance(x, ast.Continue):
+                    par = next((p for p in ast.walk(st) if isinstance(p, ast.If) and any(y is x for b in (p.body, p.orelse) for z in b for y in ast.walk(z))), None)
+                    t = par.test if par is not None else None
+                    whole = isinstance(t, ast.Compare) and len(t.ops) == 1 and isinstance(t.ops[0], ast.In) and isinstance(t.left, ast.Name) and t.left.id == lv
+                    if not whole:
+                        bad, why = x, f'a requested name is skipped under `{unparse(t, 50) if t is not None else "?"}`, which does not test the whole name'
+    rep.ob('K0', 'every-requested-name-is-added', bad is None,
+           f'Solver.solve(): {why if bad is not None else ""}: a form the user asked for (a second copy such as w-2:1 after w-2:0) is never added - its lines are missing from the solution, its '
+           'problems are not reported, and which copy survives depends on the order of the request', f'{f.rel}:{bad.lineno}' if bad is not None else _w(f))
     first_other = next((i for i, st in enumerate(f.node.body) if st is loops[0]), None)
     before = [c for st in f.node.body[:first_other] for c in calls_in(st) if call_name(c) in ('_attempt_field', '_attempt_input', 'met_dependents')]
     rep.ob('K0', 'nothing-attempted-before-the-request-is-registered', not before, 'Solver.solve() attempts lines before it has added the requested forms', _w(f))
+
+
+# ---------------------------------------------------------------- K39 the year the user names is the year that is used
+def k39_cli_options_defined_once(core, rep):
+    """argparse copies a sub-command's namespace - its DEFAULTS included - over the top-level one.  An option that is defined on
+    the top-level parser and again on a sub-command (`habutax --year 2021 solve ...` next to `solve --year`) is accepted at
+    the top level and then silently replaced by the sub-command's default: the return is solved, and stamped, with the
+    latest year's forms.  Every option destination is therefore defined at one level only."""
+    f = core.func('habutax/__init__.py', None, 'main')
+    top, holders, subs = set(), set(), set()
+    for n in ast.walk(f.node):
+        if isinstance(n, ast.Assign) and len(n.targets) == 1 and isinstance(n.targets[0], ast.Name) and isinstance(n.value, ast.Call):
+            nm = call_name(n.value)
+            if nm == 'ArgumentParser':
+                top.add(n.targets[0].id)
+            elif nm == 'add_subparsers':
+                holders.add(n.targets[0].id)
+            elif nm == 'add_parser':
+                subs.add(n.targets[0].id)
+    if not top or not subs:
+        raise AnalysisError('main(): the argument parsers were not found (anchor vanished)')
+
+    def dests(c):
+        out = set()
+        if call_name(c) == 'set_defaults':
+            return {k.arg for k in c.keywords if k.arg and k.arg != 'func'}
+        d = next((k.value.value for k in c.keywords if k.arg == 'dest' and isinstance(k.value, ast.Constant)), None)
+        if d:
+            return {d}
+        names = [a.value for a in c.args if isinstance(a, ast.Constant) and isinstance(a.value, str)]
+        longs = [x for x in names if x.startswith('--')]
+        if longs:
+            out.add(longs[0][2:].replace('-', '_'))
+        elif names:
+            out.add(names[0].lstrip('-').replace('-', '_'))
+        return out
+    at_top, at_sub = {}, {}
+    for c in calls_in(f.node):
+        if call_name(c) in ('add_argument', 'set_defaults') and isinstance(c.func, ast.Attribute) and isinstance(c.func.value, ast.Name):
+            tgt = at_top if c.func.value.id in top else at_sub if c.func.value.id in subs else None
+            if tgt is not None:
+                for d in dests(c):
+                    tgt.setdefault(d, c)
+    rep.floor('option destinations defined on the sub-commands', len(at_sub), 8)
+    both = sorted(set(at_top) & set(at_sub))
+    rep.ob('K39', 'every-option-is-defined-at-one-level', not both,
+           f'main(): {both} is defined on the top-level parser and again on a sub-command: given before the sub-command it is accepted and then replaced by the sub-command\'s default '
+           '(argparse copies the sub-command\'s namespace, defaults included, over the top-level one) - `--year 2021 solve ...` is solved and stamped with the latest year\'s forms',
+           f'{f.rel}:{at_top[both[0]].lineno}' if both else _w(f))
+    yr = at_sub.get('year')
+    sv = next((c for c in calls_in(f.node) if call_name(c) == 'add_argument' and isinstance(c.func.value, ast.Name) and c.func.value.id in subs
+               and any(isinstance(a, ast.Constant) and a.value == '--year' for a in c.args) and any(k.arg == 'choices' for k in c.keywords)), None)
+    rep.ob('K39', 'solve-takes-a-year-of-the-catalogue', yr is not None and sv is not None and any(k.arg == 'type' and unparse(k.value) == 'int' for k in sv.keywords),
+           'main(): the solve sub-command no longer takes an integer --year restricted to the years of the catalogue', _w(f))
+
+
+# ---------------------------------------------------------------- K40 the working state of a solver / filler / store belongs to the instance
+def k40_state_belongs_to_the_instance(core, rep, classes=('Solver', 'DependencyTracker', 'PDFFiller', 'ValueStore', 'InputStore')):
+    """A list, dict or store written in the CLASS body is one object for every instance.  When the methods fill it in place
+    (`self.forms.append`, `self._values[name] = v`) and the constructor does not give the instance its own, a second
+    solver / filler in the same process starts with - and adds to - what the first one left: values of another return are
+    read back, forms are filled twice."""
+    n = 0
+    for cname in classes:
+        ci = core.classes.classes.get(cname)
+        if ci is None:
+            raise AnalysisError(f'class {cname} not found (anchor vanished)')
+        shared = {}
+        for st in ci.node.body:
+            if isinstance(st, (ast.Assign, ast.AnnAssign)) and st.value is not None:
+                tg = st.targets if isinstance(st, ast.Assign) else [st.target]
+                val = st.value
+                mut = _mutable_literal(val) or (isinstance(val, ast.Call) and not (isinstance(val.func, ast.Name) and val.func.id in ('tuple', 'frozenset', 'str', 'int', 'float', 'bool', 'property', 'staticmethod', 'classmethod', 'object')))
+                for t in tg:
+                    if isinstance(t, ast.Name) and mut:
+                        shared[t.id] = st
+        methods = [m for m in ci.node.body if isinstance(m, ast.FunctionDef)]
+        init = next((m for m in methods if m.name == '__init__'), None)
+        own = set()
+        if init is not None:
+            for x in ast.walk(init):
+                if isinstance(x, (ast.Assign, ast.AnnAssign)):
+                    for t in (x.targets if isinstance(x, ast.Assign) else [x.target]):
+                        if isinstance(t, ast.Attribute) and self_attr(t):
+                            own.add(t.attr)
+        n += len(methods)
+        for nm, st in sorted(shared.items()):
+            if nm in own:
+                continue
+            hit = None
+            for m in methods:
+                for x in ast.walk(m):
+                    if isinstance(x, ast.Call) and isinstance(x.func, ast.Attribute) and x.func.attr in ('append', 'extend', 'add', 'update', 'insert', 'setdefault', 'pop', 'remove', 'clear', 'popitem', 'sort') \
+                            and isinstance(x.func.value, ast.Attribute) and self_attr(x.func.value) and x.func.value.attr == nm:
+                        hit = hit or x
+                    if isinstance(x, (ast.Assign, ast.AugAssign, ast.Delete)):
+                        for t in (x.targets if isinstance(x, (ast.Assign, ast.Delete)) else [x.target]):
+                            if isinstance(t, ast.Subscript) and isinstance(t.value, ast.Attribute) and self_attr(t.value) and t.value.attr == nm:
+                                hit = hit or x
+            if hit is not None:
+                rep.ob('K40', f'{cname}.{nm}/own-object-per-instance', False,
+                       f'{cname}.{nm} is created once in the class body (`{unparse(st, 50)}`) and filled in place by the methods (`{unparse(hit, 50)}`), and __init__ does not give the instance its own: '
+                       f'every {cname} of the process shares it - a second one starts with what the first left behind', f'{ci.rel}:{st.lineno}')
+        rep.ob('K40', f'{cname}/state-belongs-to-the-instance', True)
+    rep.floor('methods of the stateful core classes looked at', n, 40)
+    return n
 
 
 # ---------------------------------------------------------------- K35 the input file is loaded once, whole and unchanged, when the store is built
@@ -2105,6 +2236,16 @@ def k35_store_loaded_eagerly(core, rep):
            'first question) truncates the file first and then "loads" the empty file - every value it held is gone', f'{ci.rel}:{lazy[0].lineno}' if lazy else ci.rel)
     reads = [c for c in calls_in(init.node) if call_name(c) in ('read_file', 'read') and isinstance(c.func, ast.Attribute)]
     rep.ob('K35', 'file-parsed-in-the-constructor', bool(reads), 'InputStore.__init__ does not parse the input file', _w(init))
+    # ConfigParser.read(path) skips, without a word, every file it cannot open (missing, unreadable, too many open files):
+    # the store is then empty and every supplied input is reported missing.  The file is opened by the constructor itself.
+    lenient = [c for c in reads if call_name(c) == 'read']
+    opened = [c for c in calls_in(init.node) if call_name(c) == 'open' and isinstance(c.func, ast.Name)]
+    guarded = [h for t in ast.walk(init.node) if isinstance(t, ast.Try) for h in t.handlers
+               if any(c in list(calls_in(t)) for c in opened + reads) and not any(isinstance(x, ast.Raise) for x in ast.walk(h))]
+    rep.ob('K35', 'a-file-that-cannot-be-opened-is-an-error', bool(reads) and not lenient and bool(opened) and not guarded,
+           f'InputStore.__init__ {"parses the file with ConfigParser.read(), which silently skips a file it cannot open" if lenient else "swallows the error of opening / parsing the file" if guarded else "no longer opens the file itself"}: '
+           'an input file that exists and holds the inputs but cannot be read gives an empty store - every supplied input is reported as needed but not supplied (or asked again)',
+           _w(init, (lenient or [None])[0]) if lenient else _w(init))
     muts = []
     for x in ast.walk(init.node):
         if isinstance(x, ast.Call) and isinstance(x.func, ast.Attribute) and x.func.attr in ('remove_section', 'remove_option', 'set', 'add_section', 'update', 'pop', 'popitem', 'clear', 'setdefault', 'read_dict', 'read_string') \
@@ -3168,6 +3309,17 @@ def k18b_write_reaches_the_file(core, rep):
                f'InputStore.write() creates its temporary file with `{unparse(elsewhere[0], 70) if elsewhere else "?"}`, i.e. in the system temporary directory, and renames it over the input file: '
                'when the two are on different file systems the rename fails (EXDEV) - from the finally block of the CLI - and every answer of the session is lost',
                _w(f, elsewhere[0] if elsewhere else f.node))
+    # write() saves what the store holds, whatever it holds: it is the last thing that runs when a session is cut short.  A
+    # write that first re-reads the stored values through their validators (`self[name]`, spec.valid(...)) - or raises /
+    # asserts on its own - refuses to save the whole session because of one entry that was invalid in the file all along.
+    selfname = f.node.args.args[0].arg
+    judges = [x for x in ast.walk(f.node) if isinstance(x, (ast.Raise, ast.Assert))
+              or (isinstance(x, ast.Subscript) and isinstance(x.ctx, ast.Load) and isinstance(x.value, ast.Name) and x.value.id == selfname)
+              or (isinstance(x, ast.Call) and isinstance(x.func, ast.Attribute) and x.func.attr in ('valid', 'value', '__getitem__', 'validate'))
+              or (isinstance(x, ast.Call) and isinstance(x.func, ast.Attribute) and x.func.attr in ('get', 'items', 'values') and isinstance(x.func.value, ast.Name) and x.func.value.id == selfname)]
+    rep.ob('K18b', 'write-judges-nothing', not judges,
+           f'InputStore.write() evaluates or judges what it is about to save (`{unparse(judges[0], 60) if judges else ""}`): one entry of the file that does not validate makes the write-back itself raise - '
+           'from the finally block of the CLI - and every answer given in the session is lost and asked again', _w(f, judges[0]) if judges else _w(f))
     ok = not uses_exc and (bool(direct) or any(not cond for _c, cond in moved))
     rep.ob('K18b', 'write-reaches-the-named-file', ok,
            'InputStore.write() does not put the configuration into the file it is given on every normal return '
@@ -3215,6 +3367,21 @@ def k23g_box_value_set_in_every_round(core, rep):
         ok = bool(assigns) and all(not g.paths_avoiding(s2, n, assigns) for h in heads for s2 in h.succ if enclosing_loop_node(s2, loop))
         rep.ob('K23g', f'{var}-assigned-in-every-iteration', ok,
                f'PDFFiller._fill_form() can reach `{unparse(n.ast, 50)}` without having assigned `{var}` in the same iteration: the box is then filled with the text of the previous box', _w(f, n.ast))
+        # ... and it is the text the box's own mapping returned (or the blank of a line that was never computed): the filler
+        # itself does not rewrite it - upper-casing, stripping or cutting it there also hits the export values of check boxes
+        # ("Yes" becomes "YES", a state the template does not define) and the text the length / choice tests already accepted
+        lv = loop.target.id if isinstance(loop.target, ast.Name) else None
+        other = []
+        for x in ast.walk(loop):
+            if isinstance(x, (ast.Assign, ast.AugAssign)) and any(isinstance(t, ast.Name) and t.id == var for t in (x.targets if isinstance(x, ast.Assign) else [x.target])):
+                v_ = x.value
+                from_mapping = isinstance(v_, ast.Call) and isinstance(v_.func, ast.Attribute) and v_.func.attr == 'value' and isinstance(v_.func.value, ast.Name) and v_.func.value.id == lv
+                blank = isinstance(v_, ast.Constant) and v_.value in ('', None)
+                if isinstance(x, ast.AugAssign) or not (from_mapping or blank):
+                    other.append(x)
+        rep.ob('K23g', f'{var}-is-what-the-mapping-returned', not other,
+               f'PDFFiller._fill_form() rewrites the text of a box after its mapping produced it (`{unparse(other[0], 60) if other else ""}`): the change also hits check-box export values '
+               '("Yes" -> "YES" is a state the template does not define, so the box stays unticked) and text the length and choice tests have already accepted', _w(f, other[0]) if other else _w(f))
 
 
 def enclosing_loop(node):
